@@ -26,7 +26,7 @@ OPAQUE_WHEN = {}  # name -> predicate(obligation name): unfold only in those obl
 
 def reset_memo():
     """memo tables are per contract: opaque definitions and fresh-name counters are re-created for every contract"""
-    for t in (_MEMO_Q, _MEMO_PURE, _MEMO_VAR, _MEMO_INFO, _MEMO_UNFOLD):
+    for t in (_MEMO_Q, _MEMO_PURE, _MEMO_VAR, _MEMO_INFO, _MEMO_UNFOLD, _MEMO_DVP, _MEMO_SHIFT):
         t.clear()
     del _KEEP[:]
 
@@ -227,9 +227,16 @@ def ground_apps(exprs):
     return {k: list(v.values()) for k, v in out.items()}
 
 
+_MEMO_DVP = {}
+_MEMO_SHIFT = {}
+
+
 def direct_var_patterns(body):
     """keys of uninterpreted applications / selects in a one-variable quantifier body whose (single relevant) argument is
     the bound variable itself: those are instantiated at every ground argument of the same symbol (table axioms)."""
+    bid = body.get_id()
+    if bid in _MEMO_DVP:
+        return _MEMO_DVP[bid]
     keys = set()
 
     def f(x):
@@ -241,6 +248,8 @@ def direct_var_patterns(body):
                 keys.add(("sel", x.arg(0).get_id()))
 
     _walk(body, set(), f)
+    _MEMO_DVP[bid] = keys
+    _KEEP.append(body)
     return keys
 
 
@@ -700,15 +709,21 @@ def shifts_by_name(pattern):
     def f(ob):
         rx = next((r for k, r in table.items() if k and k in ob.name), table.get("", re.compile(r"^$")))
         acc = {}
+        for h in list(ob.hyps) + [ob.goal]:
+            key = (h.get_id(), rx.pattern)
+            got = _MEMO_SHIFT.get(key)
+            if got is None:
+                got = {}
 
-        def g(x):
-            if z3.is_const(x) and x.decl().kind() == z3.Z3_OP_UNINTERPRETED and x.sort() == I and rx.match(x.decl().name()):
-                acc[x.decl().name()] = x
+                def g(x, got=got):
+                    if z3.is_const(x) and x.decl().kind() == z3.Z3_OP_UNINTERPRETED and x.sort() == I and rx.match(x.decl().name()):
+                        got[x.decl().name()] = x
 
-        seen = set()
-        for h in ob.hyps:
-            _walk(h, seen, g)
-        _walk(ob.goal, seen, g)
+                if rx.pattern != "^$":
+                    _walk(h, set(), g)
+                _MEMO_SHIFT[key] = got
+                _KEEP.append(h)
+            acc.update(got)
         return list(acc.values())
 
     return f
